@@ -33,6 +33,10 @@ REGISTRY = {
 }
 
 
+# further Props files holding theorems of a property
+EXTRA_PROPS = {'C11': ['C11H']}
+
+
 def main():
     ap = argparse.ArgumentParser()
     ap.add_argument('pid')
@@ -46,7 +50,7 @@ def main():
         return 2
     modname, tb = REGISTRY[pid]
     ctx = common.Ctx(pid, args.tier, seed)
-    obl = common.check_obligations(pid, None)
+    obl = common.check_obligations_multi([pid] + EXTRA_PROPS.get(pid, []), None)
     if args.tier == 'thorough' and not obl['problems']:
         obl = common.coqchk(pid, obl)
     try:
